@@ -139,6 +139,22 @@ static void mzd_t_free(mzd_t *M) {
 #endif  //__M4RI_ENABLE_MZD_CACHE
 }
 
+#ifdef M4RI_VERIF
+/* Verification hook (off unless built with -DM4RI_VERIF): report how many header blocks exist and
+ * how many header slots are in use, so a monitor can compare with the matrices it holds. */
+void mzd_verif_header_cache_stats(int *blocks, int *slots_in_use) {
+  int b = 0, u = 0;
+#if __M4RI_ENABLE_MZD_CACHE
+  for (mzd_t_cache_t *cache = &mzd_cache; cache; cache = cache->next) {
+    ++b;
+    for (int i = 0; i < 64; ++i) u += (int)((cache->used >> i) & 1);
+  }
+#endif
+  *blocks       = b;
+  *slots_in_use = u;
+}
+#endif  // M4RI_VERIF
+
 mzd_t *mzd_init(rci_t r, rci_t c) {
   assert(sizeof(mzd_t) == 64);
   mzd_t *A = mzd_t_malloc();
